@@ -52,13 +52,18 @@ def main():
 
     dim = 2 * n + 10
     b, eb = vec(0, 2, n, dim)  # even coordinates
-    c, ec = vec(1, 2, 5000, dim)  # a few odd ones
+    c, ec = vec(1, 2 * (n // 5000) | 1 if False else 2 * (n // 5000), 5000, dim)  # odd coordinates spread over the WHOLE range:
+    # the co-iteration loop `while (pb < end_b && pc < end_c)` then runs about a million times in one call
     # copy: pos/crd/vals of one compressed level all grow past 2^20
     check("a(i) = b(i), s -> s", evaluate("a(i) = b(i)", "s", b=b), (dim,), ("s",), eb)
     # union: the merged result is longer than either operand
     want = dict(eb)
     want.update(ec)
     check("a(i) = b(i) + c(i), s,s -> s", evaluate("a(i) = b(i) + c(i)", "s", b=b, c=c), (dim,), ("s",), want)
+    # intersection of two long operands (every coordinate of b2 is in b): a million merged iterations, result of n/2 entries
+    b2, eb2 = vec(0, 4, n // 2, dim)
+    check("a(i) = b(i) * b2(i), s,s -> s", evaluate("a(i) = b(i) * b2(i)", "s", b=b, b2=b2), (dim,), ("s",),
+          {k: eb[k] * v for k, v in eb2.items()})
     # two levels: the second level's crd/vals grow, the first level's do not
     rows = 1030
     per = n // rows + 1
@@ -77,6 +82,20 @@ def main():
     check("A(i,j) = B(i,j), ds -> ss", evaluate("A(i,j) = B(i,j)", "ss", B=B), (rows, 2 * per), ("s", "s"), exp)
     # a dense block under a compressed level: vals grows by whole rows
     check("A(i,j) = B(i,j), ds -> sd", evaluate("A(i,j) = B(i,j)", "sd", B=B), (rows, 2 * per), ("s", "d"), exp)
+    # nested loops with a LONG outer loop: 600 000 rows x 2 stored columns (anything the back end allocates
+    # per outer iteration - stack slots included - is multiplied by the row count)
+    rows2 = 600_000
+    pos2 = [0]
+    crd2 = []
+    vals2 = []
+    for r in range(rows2):
+        crd2.extend((0, 2))
+        vals2.extend((1.0, float(r % 3)))
+        pos2.append(len(crd2))
+    A = Tensor(taco_structure_to_cffi([[], [pos2, crd2]], vals2, mode_types=(0, 1), dimensions=(rows2, 4), mode_ordering=(0, 1)))
+    x = Tensor.from_dok({(0,): 2.0, (2,): 0.5, (3,): 7.0}, dimensions=(4,), format="s")
+    want = {(r,): 2.0 + 0.5 * (r % 3) for r in range(rows2)}
+    check("y(i) = A(i,j) * x(j), ds,s -> d, 600k rows", evaluate("y(i) = A(i,j) * x(j)", "d", A=A, x=x), (rows2,), ("d",), want)
     json.dump(out, open(sys.argv[1], "w"))
 
 
